@@ -295,6 +295,12 @@ def plain_dims(x):
     return [i for i, ax in enumerate(x.axes) if not grp(ax)]
 
 
+def inplace_dims(x):
+    """axes that in-place relabel / rename steps may touch: no grouped axis of any size (renaming or relabelling a
+    grouped axis, even a one-member one, desynchronises it from its members: the KF-D25 family)"""
+    return [i for i, ax in enumerate(x.axes) if not grp(ax) and not is_grouped(ax)]
+
+
 def pick_label(x, d, k):
     l = x.axes[d].values
     return l[k % len(l)]
@@ -438,7 +444,7 @@ def _dataset(da, x, y, k, m):
 
 
 def _relabel(da, x, y, k, m):
-    ds = plain_dims(x)
+    ds = inplace_dims(x)
     d = ds[k % len(ds)]
     n = x.shape[d]
     form = m % 5
@@ -450,8 +456,8 @@ def _relabel(da, x, y, k, m):
     elif form == 2:
         newl = []
         for i, ax in enumerate(x.axes):
-            newl.append(np.arange(ax.size) + 10 * i + k if not grp(ax) else ax.values)
-        if not has_group(x):
+            newl.append(np.arange(ax.size) + 10 * i + k if not (grp(ax) or is_grouped(ax)) else ax.values)
+        if not has_group(x) and not real_group(x):
             x.labels = newl
         else:
             x.set_axis(np.arange(n) + k, axis=d)
@@ -463,14 +469,14 @@ def _relabel(da, x, y, k, m):
 
 
 def _rename(da, x, y, k, m):
-    ds = plain_dims(x)
+    ds = inplace_dims(x)
     d = ds[k % len(ds)]
     # fresh with respect to every live array: the Axis object may be shared with other pool members
     fresh = [f for f in FRESH if f not in _IN_USE and all(f not in nm.split(",") for nm in x.dims)]
     form = m % 3
     if form == 0:
         x.axes[d].name = fresh[k % len(fresh)]
-    elif form == 1 and not has_group(x):
+    elif form == 1 and not has_group(x) and not real_group(x):
         x.dims = tuple(fresh[(k + i) % len(fresh)] for i in range(x.ndim)) if len(set(fresh[(k + i) % len(fresh)] for i in range(x.ndim))) == x.ndim else x.dims
     else:
         x.set_axis(name=fresh[(k + 1) % len(fresh)], axis=d)
@@ -582,12 +588,14 @@ def run_history(case, allow_kf_pattern=False):
             what = "step %d %s(%d,%d) on pool[%d] dims=%s (second: pool[%d] dims=%s)" % (si, fn.__name__, k, m, i % len(pool), list(x.dims), j % len(pool), list(y.dims))
             if tag in ("relabel", "rename", "assign", "index", "reindex") and not plain_dims(x):
                 continue
+            if tag in ("relabel", "rename") and not inplace_dims(x):
+                continue
             if y is not x and (has_group(x) or has_group(y)):
                 # binary operations between differently grouped arrays go through reshape(), which parses commas in
                 # dimension names: the freshly built equivalent (a plain axis named 'x,y') is outside the stated domain
                 y = x
             if tag in ("relabel", "rename") and not allow_kf_pattern:
-                ds_ = plain_dims(x)
+                ds_ = inplace_dims(x)
                 target = x.axes[ds_[k % len(ds_)]]
                 if any(member_of_live_group(pool, ax) for ax in ([target] if tag == "rename" or (m % 5) != 2 else list(x.axes))):
                     excluded += 1     # KF-D25 pattern, generated separately (see witnesses)
